@@ -566,6 +566,15 @@ func TIFFPendingShape(r *core.Rng) ([]byte, string) {
 		v[vlen-1] = 0
 		out = append(out, v...)
 	}
+	if r.Chance(1, 3) {
+		// the file ends behind the directory (or a few values later): every reference that is
+		// still pending points past the end of the input
+		end := lowArea + low*vlen + r.Pick(0, 0, 1, vlen, 5*vlen)
+		if end < len(out) {
+			out = out[:end]
+		}
+		return out, fmt.Sprintf("tiffpending-cut big=%v n=%d low=%d len=%d", big, n, len(lowIdx), len(out))
+	}
 	return out, fmt.Sprintf("tiffpending big=%v n=%d low=%d len=%d", big, n, len(lowIdx), len(out))
 }
 
